@@ -16,6 +16,7 @@ import (
 	"time"
 
 	"verif/engine/core"
+	"verif/engine/rtapi"
 )
 
 // Violation is one failing case.
@@ -180,6 +181,27 @@ func (c *ShardCtx) Report(v Violation, knownQuirk string, conf ...*ConfCase) {
 			}
 		}
 	}
+}
+
+// ConfSample adds one run of a systematic sample to the conformance batch
+// (replayed on a really compiled parser by the parent): every every-th call
+// per shard, at most quota per shard.
+func (c *ShardCtx) ConfSample(every, quota int, text string, gen core.Gen, b *core.Built, in []byte, o rtapi.RunOpts, script map[int]*rtapi.Block, obs *rtapi.Obs) {
+	c.Res.confSeen++
+	if obs.Diverged || c.Res.confSeen%every != 1 {
+		return
+	}
+	n := 0
+	for _, cc := range c.Res.Conf {
+		if cc.Why == "systematic sample" {
+			n++
+		}
+	}
+	if n >= quota {
+		return
+	}
+	c.Res.Conf = append(c.Res.Conf, ConfCase{Text: text, Gen: gen, HasState: b.Flags.HasState(), HasMemo: b.Flags.HasMemo(), Why: "systematic sample",
+		Runs: []ConfRun{{Input: in, Opts: o, Script: script, Obs: obs}}})
 }
 
 func (c *ShardCtx) Sample(s any) {
